@@ -36,6 +36,7 @@ DepsExact        == QDepsExactOf(inst, hist)
 ConflictsOrdered == QConflictsOrderedOf(hist)
 ReadsUnordered   == QReadsUnorderedOf(hist)
 DepsEarlier      == QDepsEarlierOf(inst, hist)
+DepsJustified    == QDepsJustifiedOf(inst, hist)
 PendingExact     == qphase = "done" => pending = ExpectedPending(inst, hist)
 \* the cell itself: last writer and the reads since (the representation invariant of the queue)
 CellExact ==
